@@ -46,7 +46,12 @@ SETTINGS = {
 }
 
 
+_JITTER_SLOTS = {"cholesky_jitter_double": "_global_double_value", "cholesky_jitter_float": "_global_float_value"}
+
+
 def _get_setting(name):
+    if name in _JITTER_SLOTS:
+        return getattr(S.cholesky_jitter, _JITTER_SLOTS[name])
     c = SETTINGS[name]
     if issubclass(c, S._feature_flag):
         return c._state
@@ -54,6 +59,9 @@ def _get_setting(name):
 
 
 def _set_setting(name, v):
+    if name in _JITTER_SLOTS:
+        setattr(S.cholesky_jitter, _JITTER_SLOTS[name], v)
+        return
     c = SETTINGS[name]
     if isinstance(v, dict) and "dtype" in v:
         v = getattr(torch, v["dtype"].split(".")[1])
@@ -71,6 +79,7 @@ def capture_pristine():
     global _PRISTINE, _PRISTINE_JITTER
     if _PRISTINE is None:
         _PRISTINE = {k: _get_setting(k) for k in SETTINGS}
+        _PRISTINE.update({k: _get_setting(k) for k in _JITTER_SLOTS})
         _PRISTINE_JITTER = (S.cholesky_jitter._global_float_value, S.cholesky_jitter._global_double_value, S.cholesky_jitter._global_half_value)
 
 
@@ -87,7 +96,9 @@ def restore_pristine():
 
 
 def settings_snapshot():
-    return {k: _get_setting(k) for k in SETTINGS if k != "verbose_linalg"}
+    out = {k: _get_setting(k) for k in SETTINGS if k != "verbose_linalg"}
+    out.update({k: _get_setting(k) for k in _JITTER_SLOTS})
+    return out
 
 
 def settings_apply(snap):
